@@ -1052,7 +1052,7 @@ pub fn run(ctx: &mut Ctx) {
     {
         let mut low: Vec<(u32, u64, Option<u64>)> = vec![(3, 2, None), (3, 5, Some(1)), (11, 21, Some(5))];
         if !quick {
-            low.extend([(3, 3, None), (3, 4, None), (3, 17, Some(1)), (11, 2, None), (11, 11, None), (11, 37, Some(5))]);
+            low.extend([(3, 3, None), (3, 4, None), (3, 17, Some(1)), (11, 2, None), (11, 11, None), (11, 37, None), (11, 42, Some(10))]);
         }
         for (ord, n, fk) in low {
             jobs.v.push(Box::new(move || crate::loworder::case(ord, n, fk)));
@@ -1154,7 +1154,7 @@ pub fn probe(args: &[String]) {
         return;
     }
     if which == "loworder" {
-        for (o, n, k) in [(3u32, 2u64, None), (3, 5, Some(1u64)), (3, 3, None), (11, 21, Some(5))] {
+        for (o, n, k) in [(3u32, 2u64, None), (3, 5, Some(1u64)), (3, 3, None), (11, 21, Some(5)), (11, 37, Some(5)), (11, 42, Some(10))] {
             let t = std::time::Instant::now();
             let out = crate::loworder::case(o, n, k);
             for e in out.ev {
